@@ -186,3 +186,194 @@ def replay_line_loop(name, model):
 
 
 TARGETS = {"line_loop": target_line_loop}
+
+
+def _tokenize_slices():
+    info = pyvc.load_function("compiler.front_end.tokenizer.tokenize")
+    body = info.node.body
+    loops = [i for i, n in enumerate(body) if isinstance(n, ast.For) and "text.splitlines()" in ast.unparse(n.iter)]
+    if len(loops) != 1:
+        raise core.CheckerError("anchor mismatch: expected one top-level `for line in text.splitlines()` loop in tokenize")
+    return info, body[loops[0]], body[loops[0] + 1:]
+
+
+def target_indent_loop():
+    """One iteration of the per-line loop of tokenizer.tokenize from a symbolic state: any line (length N, W leading
+    whitespace characters), any open indentation stack of depth 1..4 that is a chain of strict prefixes starting at ""
+    (the loop invariant; re-established here), any outcome of _tokenize_line (its contract: (None, errors) or a token list).
+    String comparisons of the leading whitespace with stack entries are uninterpreted booleans constrained only by what
+    holds of all strings (equal strings have equal lengths; a prefix is not longer; a prefix of equal length is equal;
+    everything starts with "")."""
+    tk = importlib.import_module("compiler.front_end.tokenizer")
+    error = importlib.import_module("compiler.util.error")
+    pt = importlib.import_module("compiler.util.parser_types")
+    info, loop, tail = _tokenize_slices()
+    eng = pyvc.Engine()
+    eng.contract(error.error, lambda interp, f, loc, msg: ("ERR", loc, msg), "error.error")
+    eng.contract(pt.SourceLocation, lambda interp, a, b, **k: ("LOC", a, b), "SourceLocation")
+    eng.contract(pt.Token, lambda interp, sym, text, loc: SRec("Token", {"symbol": sym, "text": text, "source_location": loc}), "Token")
+
+    def harness(c):
+        d = int(c.choice("open-levels", ["1", "2", "3", "4"]))
+        shape = c.choice("line-tokens", ["error", "", "C", "CC", "X", "XC", "CX", "XX"])
+        N, W, ln = z3.Int("len_line"), z3.Int("leading_whitespace"), z3.Int("line_number")
+        L = [z3.Int("open_%d_length" % i) for i in range(d)]
+        e = [z3.Bool("lw_equals_open_%d" % i) for i in range(d)]
+        p = z3.Bool("lw_startswith_top")
+        c.assume(z3.And(W >= 0, W <= N, L[0] == 0, ln >= 0))
+        for i in range(1, d):
+            c.assume(L[i] > L[i - 1])
+        for i in range(d):
+            c.assume(z3.Implies(e[i], W == L[i]))
+        c.assume(e[0] == (W == 0))
+        c.assume(z3.And(z3.Implies(e[d - 1], p), z3.Implies(p, W >= L[d - 1]), z3.Implies(z3.And(p, W == L[d - 1]), e[d - 1])))
+        # lower entries are prefixes of the top one: if the line's whitespace starts with the top entry it differs from them
+        if d == 1:
+            c.assume(p)
+        stack0 = [GStr(L[i], tag=("open", i)) for i in range(d)]
+
+        def lw_eq(interp, g, o):
+            if isinstance(o, GStr) and o.tag[0] == "open":
+                return SBool(e[o.tag[1]])
+            raise pyvc.Unsupported("== of the leading whitespace with something that is not an open level")
+
+        def lw_startswith(interp, g, o):
+            if isinstance(o, GStr) and o.tag == ("open", d - 1):
+                return SBool(p)
+            raise pyvc.Unsupported("startswith of something that is not the innermost open level")
+
+        def lw_slice(interp, g, lo, hi):
+            c.oblige("indent-text-starts-after-the-enclosing-level", z3.And(hi is None, pyvc.zint(lo) == L[d - 1]) if hi is None else False)
+            return GStr(W - L[d - 1], tag=("indent-text",))
+        lw = GStr(W, tag=("lw",), ops={"eq": lw_eq, "startswith": lw_startswith, "slice": lw_slice})
+
+        def line_slice(interp, g, lo, hi):
+            c.oblige("leading-whitespace-is-the-part-lstrip-removes", z3.And(pyvc.zint(0 if lo is None else lo) == 0, pyvc.zint(hi) == W) if hi is not None else False)
+            return lw
+        line = GStr(N, tag=("line",), ops={"lstrip": lambda interp, g: GStr(N - W, tag=("stripped",)), "slice": line_slice})
+        ltoks = [SRec("Token", {"symbol": "Comment" if ch == "C" else "SnakeWord", "text": "t%d" % i, "source_location": ("LOC", i)}) for i, ch in enumerate(shape)] if shape != "error" else None
+        lerr = [["E"]] if shape == "error" else None
+        eng.contract(tk._tokenize_line, lambda interp, l, n, f: (c.oblige("line-number-passed-on", pyvc.zint(n) == ln + 1), (ltoks, lerr))[1], "_tokenize_line")
+        it = pyvc.Interp(c, info)
+        tokens, stack = [], list(stack0)
+        it.env = {"line": line, "line_number": SInt(ln), "file_name": "f.emb", "tokens": tokens, "indent_stack": stack, "text": "unused"}
+        c.covered = True
+        returned = "no"
+        try:
+            it.block(loop.body)
+        except pyvc._Continue:
+            pass
+        except pyvc._Return as r:
+            returned = r.value
+        ln1 = ln + 1
+
+        def is_loc(l, a, b, c_, d_):
+            return z3.And(pyvc.zint(l[1][0]) == a, pyvc.zint(l[1][1]) == b, pyvc.zint(l[2][0]) == c_, pyvc.zint(l[2][1]) == d_)
+
+        def tok_is(t, sym, text, loc4):
+            if not (isinstance(t, SRec) and t.f["symbol"] == sym):
+                return False
+            tx = t.f["text"]
+            if not ((tx == text) if isinstance(text, str) else (isinstance(tx, GStr) and tx.tag == text)):
+                return False
+            return is_loc(t.f["source_location"], *loc4)
+        if shape == "error":
+            c.oblige("line-errors-are-returned-and-nothing-else-happens", returned != "no" and returned[0] is None and returned[1] is lerr and tokens == [] and stack == stack0)
+            return
+        nl = (ln1, N + 1, ln1, N + 1)
+        blank = all(ch == "C" for ch in shape)
+        if blank:
+            ok = returned == "no" and len(tokens) == len(ltoks) + 1 and all(a is b for a, b in zip(tokens, ltoks)) and stack == stack0
+            c.oblige("blank-or-comment-line:tokens-then-newline,indentation-untouched", ok, detail=repr(tokens)[:200])
+            if ok:
+                c.oblige("newline-token-at-end-of-line", tok_is(tokens[-1], '"\\n"', "\n", nl))
+            return
+        some_eq = z3.Or(e)
+        if returned != "no":
+            okr = isinstance(returned, tuple) and returned[0] is None and len(returned[1]) == 1 and len(returned[1][0]) == 1 and returned[1][0][0][0] == "ERR" and returned[1][0][0][2] == "Bad indentation"
+            c.oblige("error-return-shape", okr, detail=repr(returned)[:200])
+            c.oblige("bad-indentation-only-when-no-open-level-matches", z3.And(z3.Not(p), z3.Not(some_eq)))
+            if okr:
+                c.oblige("bad-indentation-location-is-the-leading-whitespace", is_loc(returned[1][0][0][1], ln1, 1, ln1, W + 1))
+            return
+        # accepted line: [Indent | Dedent*] line tokens, newline
+        k = len(tokens) - len(ltoks) - 1
+        c.oblige("line-tokens-in-order-then-one-newline", k >= 0 and all(a is b for a, b in zip(tokens[k:], ltoks)), detail=repr(tokens)[:200])
+        if k < 0:
+            return
+        c.oblige("newline-token-at-end-of-line", tok_is(tokens[-1], '"\\n"', "\n", nl))
+        c.oblige("accepted-only-when-an-open-level-matches-or-extends", z3.Or(p, some_eq))
+        pre = tokens[:k]
+        if stack == stack0:
+            c.oblige("same-indentation:no-Indent-no-Dedent", k == 0)
+            c.oblige("same-indentation:whitespace-equals-innermost-level", e[d - 1])
+        elif len(stack) == d + 1 and stack[:d] == stack0:
+            c.oblige("deeper:exactly-one-Indent", k == 1 and stack[-1] is lw)
+            c.oblige("deeper:whitespace-strictly-extends-innermost-level", z3.And(p, z3.Not(e[d - 1]), W > L[d - 1]))
+            if k == 1:
+                c.oblige("deeper:Indent-token-is-the-new-part-of-the-whitespace", tok_is(pre[0], "Indent", ("indent-text",), (ln1, L[d - 1] + 1, ln1, W + 1)), detail=repr(pre[0])[:200])
+        elif len(stack) < d and stack == stack0[:len(stack)] and stack:
+            i = len(stack) - 1
+            c.oblige("shallower:one-Dedent-per-closed-level", k == d - 1 - i)
+            c.oblige("shallower:whitespace-equals-the-level-returned-to", z3.And(e[i], z3.Not(p)))
+            for t in pre:
+                c.oblige("shallower:Dedent-tokens-are-empty-at-the-end-of-the-whitespace", tok_is(t, "Dedent", "", (ln1, W + 1, ln1, W + 1)), detail=repr(t)[:200])
+        else:
+            c.oblige("indentation-stack-changes-only-by-push-or-pop", False, detail="%d -> %d entries" % (d, len(stack)))
+            return
+        # loop invariant re-established: chain of strict prefixes whose top is this line's leading whitespace
+        lens = [g.length for g in stack]
+        c.oblige("invariant:open-levels-stay-a-strictly-growing-chain-from-the-empty-string", z3.And([lens[0] == 0] + [lens[j] > lens[j - 1] for j in range(1, len(lens))]))
+        c.oblige("invariant:balance(open-levels-1==Indents-Dedents)", len(stack) - d == sum(1 for t in pre if t.f["symbol"] == "Indent") - sum(1 for t in pre if t.f["symbol"] == "Dedent"))
+    paths = eng.explore(harness)
+    return pyvc.collect(paths, "tokenize.line-loop-body"), sum(1 for p in paths if p.covered)
+
+
+def target_final_dedents():
+    """The statements after the per-line loop of tokenizer.tokenize: one empty Dedent at (last line + 1, 1) per level still
+    open (so Indent and Dedent tokens balance, with the balance invariant of the loop body), and (tokens, [])."""
+    error = importlib.import_module("compiler.util.error")
+    pt = importlib.import_module("compiler.util.parser_types")
+    info, loop, tail = _tokenize_slices()
+    eng = pyvc.Engine()
+    eng.contract(pt.SourceLocation, lambda interp, a, b, **k: ("LOC", a, b), "SourceLocation")
+    eng.contract(pt.Token, lambda interp, sym, text, loc: SRec("Token", {"symbol": sym, "text": text, "source_location": loc}), "Token")
+
+    def harness(c):
+        d = int(c.choice("open-levels", ["1", "2", "3", "4", "5"]))
+        ln = z3.Int("line_number")
+        marker = SRec("Token", {"symbol": "X", "text": "x", "source_location": None})
+        tokens = [marker]
+        it = pyvc.Interp(c, info)
+        it.env = {"tokens": tokens, "indent_stack": [GStr(z3.Int("l%d" % i), tag=("open", i)) for i in range(d)], "line_number": SInt(ln), "file_name": "f.emb"}
+        c.covered = True
+        returned = None
+        try:
+            it.block(tail)
+        except pyvc._Return as r:
+            returned = r.value
+        ok = isinstance(returned, tuple) and len(returned) == 2 and returned[0] is tokens and returned[1] == []
+        c.oblige("returns-the-tokens-and-no-errors", ok, detail=repr(returned)[:200])
+        c.oblige("one-Dedent-per-level-still-open", len(tokens) == 1 + (d - 1) and tokens[0] is marker)
+        for t in tokens[1:]:
+            c.oblige("final-Dedents-are-empty-at-the-line-after-the-last", z3.And(t.f["symbol"] == "Dedent", t.f["text"] == "", pyvc.zint(t.f["source_location"][1][0]) == ln + 1, pyvc.zint(t.f["source_location"][1][1]) == 1,
+                                                                               pyvc.zint(t.f["source_location"][2][0]) == ln + 1, pyvc.zint(t.f["source_location"][2][1]) == 1))
+    paths = eng.explore(harness)
+    return pyvc.collect(paths, "tokenize.final-dedents"), sum(1 for p in paths if p.covered)
+
+
+def replay_tokenize(name, model):
+    """Replay of a refuted tokenize() slice obligation: the REAL tokenize on every text of length <= 7 over " \tx#\n" (and
+    <= 5 with a second kind of whitespace), checked with the invariants of the property (props/C10.check_text)."""
+    from props import C10
+    for alphabet, n in ((" x#\n", 7), (" \tx\n", 8)):
+        for k in range(0, n + 1):
+            for chars in itertools.product(alphabet, repeat=k):
+                text = "".join(chars)
+                why = C10.check_text(text)
+                if why is not None:
+                    return {"reproduced": True, "inputs": {"text": text}, "why": why}
+    return {"reproduced": False, "note": "no text of length <= 7 over ' x#\\n' fails the invariants"}
+
+
+TARGETS.update({"indent_loop": target_indent_loop, "final_dedents": target_final_dedents})
